@@ -1,13 +1,21 @@
 //! C20: the same grammar / table / parser built with u8, u16 or u32 index storage.
 //!
-//! case (grammar):  `<kind> <width 8|16|32> <hexsrc> ; <token names> ; <token names> …`
+//! case (grammar):  `<kind> <width 8|16|32> <hexsrc> [rec] ; <token names> ; <token names> …`
 //! case (lexer):    `L <width 8|16|32> <hexsrc of a .l file>`
 //!
 //! result (one line), stage by stage, each stage under its own catch_unwind:
 //!   `G OK rl=.. pl=.. tl=.. eof=.. sp=.. mpl=.. nr=.. np=.. nt=.. gh=<hash>`
 //!        | `G REFUSED <msg>` | `G OTHERPANIC <msg>` | `G ERR <msg>`
 //!   ` | T OK ns=.. nst=.. start=.. sr=<#shift/reduce> rr=<#reduce/reduce> unreach=.. rawh=<hash> th=<hash>` | ` | T REFUSED <msg>` | ` | T OTHERPANIC <msg>` | ` | T ERR <msg>`
+//!   ` | IT ok <#states>` | ` | IT DIFF st=<raw state> <which iterator> …` | ` | IT PANIC st=<raw state> <which> <msg>`:
+//!        the per-state iterators `state_actions` / `state_shifts` / `core_reduces` of EVERY state against the
+//!        `action()` cells of that state in THIS width (state_actions = the non-Error cells, state_shifts = the
+//!        Shift cells, core_reduces = one production per (rule, length) class of the row's Reduce cells)
 //!   ` | P <toks> => <outcome>` per usable input
+//!   ` | R <toks> => <outcome>` per usable input, only with the `rec` flag: the same input parsed with
+//!        `RecoveryKind::CPCTPlus`: `panic <msg>` | `lexerr` | `val=<tree | tree#hash | -> tm=<ms>` followed by one
+//!        ` E <lexeme idx> <canonical state> <applied sequence> <all sequences>` per error; a sequence = steps
+//!        `I<tidx>` / `D` / `S` joined by `,` (`-` = empty), all sequences SORTED and joined by `+` (`-` = none)
 //! rl/pl/tl/eof/sp are the values REPORTED by rules_len()/prods_len()/tokens_len()/
 //! eof_token_idx()/start_prod(); mpl the largest reported prod_len(); nr/np/nt the number of
 //! indices handed out by iter_rules/iter_pidxs/iter_tidxs.  gh hashes the complete grammar
@@ -70,7 +78,8 @@ macro_rules! width_impl {
             use cfgrammar::yacc::YaccGrammar;
             use cfgrammar::{Span, Symbol};
             use lrlex::{DefaultLexeme, DefaultLexerTypes, LRLexError, LRNonStreamingLexerDef, LexerDef};
-            use lrpar::{LexParseError, Lexeme, Lexer, NonStreamingLexer, RTParserBuilder, RecoveryKind};
+            use lrpar::{LexParseError, Lexeme, Lexer, NonStreamingLexer, ParseRepair, RTParserBuilder, RecoveryKind};
+            use std::collections::{BTreeMap, BTreeSet};
             use lrtable::{from_yacc, Action, Minimiser, StIdx, StateGraph, StateTable};
             use std::collections::VecDeque;
 
@@ -282,7 +291,162 @@ macro_rules! width_impl {
                 }
             }
 
-            pub fn run(kind: &str, src: &str, inputs: &[&str]) -> String {
+            /// the per-state iterators against the cells, state by state (first disagreement / panic is reported)
+            fn iterators_check(grm: &YaccGrammar<T>, sg: &StateGraph<T>, st: &StateTable<T>) -> String {
+                let mut n = 0usize;
+                for s in sg.iter_stidxs() {
+                    n += 1;
+                    let mut acts: BTreeSet<usize> = BTreeSet::new();
+                    let mut shifts: BTreeSet<usize> = BTreeSet::new();
+                    let mut reds: BTreeSet<usize> = BTreeSet::new();
+                    let mut classes: BTreeSet<(usize, usize)> = BTreeSet::new();
+                    for tidx in grm.iter_tidxs() {
+                        match st.action(s, tidx) {
+                            Action::Error => (),
+                            Action::Shift(_) => {
+                                acts.insert(usize::from(tidx));
+                                shifts.insert(usize::from(tidx));
+                            }
+                            Action::Reduce(p) => {
+                                acts.insert(usize::from(tidx));
+                                reds.insert(usize::from(p));
+                                classes.insert((usize::from(grm.prod_to_rule(p)), grm.prod(p).len()));
+                            }
+                            Action::Accept => {
+                                acts.insert(usize::from(tidx));
+                            }
+                        }
+                    }
+                    let show = |v: &[usize]| v.iter().map(|x| x.to_string()).collect::<Vec<_>>().join(",");
+                    let showset = |v: &BTreeSet<usize>| v.iter().map(|x| x.to_string()).collect::<Vec<_>>().join(",");
+                    match catch(std::panic::AssertUnwindSafe(|| st.state_actions(s).map(usize::from).collect::<Vec<usize>>())) {
+                        Err(m) => return format!("PANIC st={} state_actions {}", usize::from(s), clean(&m)),
+                        Ok(v) => {
+                            let set: BTreeSet<usize> = v.iter().copied().collect();
+                            if set != acts || set.len() != v.len() {
+                                return format!("DIFF st={} state_actions lists [{}] non-Error cells [{}]", usize::from(s), show(&v), showset(&acts));
+                            }
+                        }
+                    }
+                    match catch(std::panic::AssertUnwindSafe(|| st.state_shifts(s).map(usize::from).collect::<Vec<usize>>())) {
+                        Err(m) => return format!("PANIC st={} state_shifts {}", usize::from(s), clean(&m)),
+                        Ok(v) => {
+                            let set: BTreeSet<usize> = v.iter().copied().collect();
+                            if set != shifts || set.len() != v.len() {
+                                return format!("DIFF st={} state_shifts lists [{}] Shift cells [{}]", usize::from(s), show(&v), showset(&shifts));
+                            }
+                        }
+                    }
+                    match catch(std::panic::AssertUnwindSafe(|| st.core_reduces(s).map(usize::from).collect::<Vec<usize>>())) {
+                        Err(m) => return format!("PANIC st={} core_reduces {}", usize::from(s), clean(&m)),
+                        Ok(v) => {
+                            let np = usize::from(grm.prods_len());
+                            let mut seen: BTreeMap<(usize, usize), usize> = BTreeMap::new();
+                            let mut good = true;
+                            for p in &v {
+                                if *p >= np || !reds.contains(p) {
+                                    good = false;
+                                    break;
+                                }
+                                let pi = cfgrammar::PIdx(*p as T);
+                                *seen.entry((usize::from(grm.prod_to_rule(pi)), grm.prod(pi).len())).or_insert(0) += 1;
+                            }
+                            if good {
+                                good = seen.values().all(|c| *c == 1) && seen.keys().copied().collect::<BTreeSet<_>>() == classes;
+                            }
+                            if !good {
+                                return format!(
+                                    "DIFF st={} core_reduces lists [{}] Reduce cells [{}] (one production per (rule,length) class expected)",
+                                    usize::from(s),
+                                    show(&v),
+                                    showset(&reds)
+                                );
+                            }
+                        }
+                    }
+                }
+                format!("ok {}", n)
+            }
+
+            fn seq_str(sq: &[ParseRepair<Lx, T>]) -> String {
+                if sq.is_empty() {
+                    return "-".to_string();
+                }
+                sq.iter()
+                    .map(|r| match r {
+                        ParseRepair::Insert(t) => format!("I{}", usize::from(*t)),
+                        ParseRepair::Delete(_) => "D".to_string(),
+                        ParseRepair::Shift(_) => "S".to_string(),
+                    })
+                    .collect::<Vec<_>>()
+                    .join(",")
+            }
+
+            fn rec_outcome(grm: &YaccGrammar<T>, st: &StateTable<T>, canon: &[Option<usize>], toks: &[T]) -> String {
+                let lexer = Replay { toks: toks.to_vec() };
+                let t0 = std::time::Instant::now();
+                let r = catch(std::panic::AssertUnwindSafe(|| {
+                    let pb = RTParserBuilder::<T, LT>::new(grm, st).recoverer(RecoveryKind::CPCTPlus);
+                    pb.parse_map(
+                        &lexer,
+                        &|lexeme: Lx| Tree::Term(lexeme.tok_id() as u32, lexeme.span().start(), lexeme.span().len(), lexeme.faulty()),
+                        &|ridx, nodes| Tree::Nonterm(u32::from(ridx), nodes),
+                    )
+                }));
+                let tm = t0.elapsed().as_millis();
+                match r {
+                    Err(m) => format!("panic {}", clean(&m)),
+                    Ok((val, errs)) => {
+                        let mut o = String::new();
+                        match val {
+                            Some(t) => {
+                                let mut s = String::new();
+                                t.pp(&mut s);
+                                let s = s.replace(' ', "_");
+                                if s.len() > 200 {
+                                    let mut d = Dig::new();
+                                    d.add(&s);
+                                    write!(o, "val=tree#{}", d.fin()).unwrap();
+                                } else {
+                                    write!(o, "val={}", s).unwrap();
+                                }
+                            }
+                            None => o.push_str("val=-"),
+                        }
+                        write!(o, " tm={}", tm).unwrap();
+                        for e in &errs {
+                            match e {
+                                LexParseError::ParseError(e) => {
+                                    let l = e.lexeme();
+                                    let s = l.span().start();
+                                    let li = if l.span().len() == 0 { (s + 1) / 2 } else { s / 2 };
+                                    let cs = match canon.get(usize::from(e.stidx())) {
+                                        Some(Some(c)) => format!("{}", c),
+                                        _ => format!("?{}", usize::from(e.stidx())),
+                                    };
+                                    let applied = e.repairs().first().map(|x| seq_str(x)).unwrap_or_else(|| "none".to_string());
+                                    let mut all: Vec<String> = e.repairs().iter().map(|x| seq_str(x)).collect();
+                                    all.sort();
+                                    let all = if all.is_empty() {
+                                        "-".to_string()
+                                    } else if all.len() > 200 {
+                                        let mut d = Dig::new();
+                                        d.add(&all.join("+"));
+                                        format!("set#{}#{}", all.len(), d.fin())
+                                    } else {
+                                        all.join("+")
+                                    };
+                                    write!(o, " E {} {} {} {}", li, cs, applied, all).unwrap();
+                                }
+                                LexParseError::LexError(_) => return "lexerr".to_string(),
+                            }
+                        }
+                        o
+                    }
+                }
+            }
+
+            pub fn run(kind: &str, src: &str, inputs: &[&str], rec: bool) -> String {
                 let mut o = String::new();
                 let g = catch(std::panic::AssertUnwindSafe(|| YaccGrammar::<T>::new_with_storaget(yacckind(kind), src)));
                 let grm = match g {
@@ -341,6 +505,10 @@ macro_rules! width_impl {
                     Ok(l) => write!(o, " {}", l).unwrap(),
                     Err(m) => write!(o, " LISTPANIC {}", clean(&m)).unwrap(),
                 }
+                match catch(std::panic::AssertUnwindSafe(|| iterators_check(&grm, &sg, &st))) {
+                    Ok(l) => write!(o, " | IT {}", l).unwrap(),
+                    Err(m) => write!(o, " | IT PANIC st=? {}", clean(&m)).unwrap(),
+                }
                 for inp in inputs {
                     let mut toks: Vec<T> = Vec::new();
                     let mut ok = true;
@@ -362,6 +530,17 @@ macro_rules! width_impl {
                         write!(o, " n={}", toks.len()).unwrap();
                     }
                     write!(o, " => {}", parse_outcome(&grm, &st, &canon, &toks)).unwrap();
+                    if rec {
+                        write!(o, " | R").unwrap();
+                        if toks.len() <= 8 {
+                            for t in &toks {
+                                write!(o, " {}", t).unwrap();
+                            }
+                        } else {
+                            write!(o, " n={}", toks.len()).unwrap();
+                        }
+                        write!(o, " => {}", rec_outcome(&grm, &st, &canon, &toks)).unwrap();
+                    }
                 }
                 o
             }
@@ -411,6 +590,7 @@ fn main() {
         let kind = hs.next().unwrap_or("").to_string();
         let width = hs.next().unwrap_or("").to_string();
         let src = unhex(hs.next().unwrap_or(""));
+        let rec = hs.next() == Some("rec");
         let inputs: Vec<&str> = parts.collect();
         if kind == "L" {
             return match width.as_str() {
@@ -421,9 +601,9 @@ fn main() {
             };
         }
         match width.as_str() {
-            "8" => w8::run(&kind, &src, &inputs),
-            "16" => w16::run(&kind, &src, &inputs),
-            "32" => w32::run(&kind, &src, &inputs),
+            "8" => w8::run(&kind, &src, &inputs, rec),
+            "16" => w16::run(&kind, &src, &inputs, rec),
+            "32" => w32::run(&kind, &src, &inputs, rec),
             _ => "BADCASE width".to_string(),
         }
     });
